@@ -64,8 +64,13 @@ var txnOps = []Op{{Kind: "set", Name: "refs/a"}, {Kind: "del", Name: "refs/a"}, 
 
 var compOps = []Op{{Kind: "all"}, {Kind: "range", I: 0, J: 1}, {Kind: "range", I: 1, J: 2}, {Kind: "range", I: 0, J: 2}, {Kind: "range", I: 2, J: 3}, {Kind: "range", I: 1, J: 3}}
 
+// richOps are transactions that put several records, refs AND log entries, into one table (what git writes
+// for an ordinary update): compaction then meets tables that hold both sections.
+var richOps = []Op{{Kind: "setlog", Name: "refs/a"}, {Kind: "multi", Name: "refs/a"}}
+
 type bounds struct {
 	txns, comps int
+	rich        bool
 }
 
 // runner replays histories.
@@ -318,6 +323,15 @@ func (r *runner) apply(l *live, o Op, h *History, check bool) (applicable bool) 
 			}
 			t.Logs = []hx.LogOp{{Name: o.Name, Msg: msg, Time: uint64(1000 + l.step), Old: "o", New: fmt.Sprintf("n%d", l.step)}}
 			l.tomb = true
+		case "setlog":
+			t.Refs = []hx.RefOp{{Name: o.Name, Kind: 1, Val: fmt.Sprintf("v%d", l.step)}}
+			t.Logs = []hx.LogOp{{Name: o.Name, Msg: fmt.Sprintf("update %d", l.step), Time: uint64(1000 + l.step), Old: "o", New: fmt.Sprintf("v%d", l.step)}}
+			l.tomb = true
+		case "multi":
+			t.Refs = []hx.RefOp{{Name: "refs/a", Kind: 1, Val: fmt.Sprintf("v%d", l.step)}, {Name: "refs/b", Kind: 2, Val: fmt.Sprintf("t%d", l.step), Peeled: fmt.Sprintf("v%d", l.step)}}
+			t.Logs = []hx.LogOp{{Name: "refs/a", Msg: fmt.Sprintf("a %d", l.step), Time: uint64(1000 + l.step), Old: "o", New: fmt.Sprintf("v%d", l.step)},
+				{Name: "refs/b", Msg: fmt.Sprintf("b %d", l.step), Time: uint64(1000 + l.step), Old: "o", New: fmt.Sprintf("t%d", l.step)}}
+			l.tomb = true
 		case "dellog":
 			u, ok := newestLog(l.model, o.Name)
 			if !ok {
@@ -550,6 +564,9 @@ func (r *runner) explore(h *History, b bounds, wi, wn int, depth0 *int) {
 	var menu []Op
 	if nt < b.txns {
 		menu = append(menu, txnOps...)
+		if b.rich {
+			menu = append(menu, richOps...)
+		}
 	}
 	if nc < b.comps && !h.Auto {
 		menu = append(menu, compOps...)
@@ -584,6 +601,9 @@ func (r *runner) explore(h *History, b bounds, wi, wn int, depth0 *int) {
 			rem--
 		} else {
 			rem -= 8
+		}
+		if b.rich {
+			rem += 1000 // a separate search: its menu is larger, so budgets are not comparable with the plain one
 		}
 		key := r.stateKey(l)
 		if old, seen := r.seen[key]; seen && old >= rem {
@@ -701,6 +721,22 @@ func RunC07(prop, tier string, wi, wn int, sink Sink) {
 			// one deeper slice: 4 transactions then a single compaction
 			r.seen = map[string]int{}
 			r.explore(&History{Cfg: cn}, bounds{txns: 4, comps: 1}, wi, wn, &d0)
+			// transactions that write refs and log entries into ONE table, at a reduced bound
+			r.seen = map[string]int{}
+			r.explore(&History{Cfg: cn}, bounds{txns: 3, comps: 1, rich: true}, wi, wn, &d0)
+			r.seen = map[string]int{}
+			r.explore(&History{Cfg: cn, Auto: true}, bounds{txns: 4, rich: true}, wi, wn, &d0)
+		}
+		if quick && prop == "C14" {
+			// C14's quick tier: the files written by transactions that hold refs and log entries together
+			r.seen = map[string]int{}
+			r.explore(&History{Cfg: cn}, bounds{txns: 3, comps: 1, rich: true}, wi, wn, &d0)
+		}
+		if !quick && (cn == "default" || cn == "bs128") {
+			r.seen = map[string]int{}
+			r.explore(&History{Cfg: cn}, bounds{txns: 4, comps: 2, rich: true}, wi, wn, &d0)
+			r.seen = map[string]int{}
+			r.explore(&History{Cfg: cn, Auto: true}, bounds{txns: 5, rich: true}, wi, wn, &d0)
 		}
 	}
 	sink.Count("states", r.states)
